@@ -111,7 +111,18 @@ fn main() {
         }
     }
     if outcome == "fail" {
-        eprintln!("stand-in {prog}: scripted failure of {kind}");
+        // like a real failing build: a long log full of multi-byte characters (and a stray invalid byte) on
+        // both streams; its length varies from call to call, so any byte offset can fall inside a character
+        let line = "\u{2713} step ok \u{2014} \u{fc}n\u{ef}c\u{f6}d\u{e9} \u{1f680} \u{4e16}\u{754c}\n";
+        let mut out = std::io::stdout().lock();
+        let mut err = std::io::stderr().lock();
+        let extra = (n * 7 + kind.len() * 13 + std::process::id() as usize) % 97;
+        let mut text = line.repeat(70_000 / line.len() + 1);
+        text.push_str(&"\u{e9}".repeat(extra));
+        let _ = out.write_all(text.as_bytes());
+        let _ = out.write_all(b"\xff\xfe tail\n");
+        let _ = err.write_all(&text.as_bytes()[..text.len() - line.len()]);
+        let _ = writeln!(err, "stand-in {prog}: scripted failure of {kind}");
         std::process::exit(1);
     }
     match kind {
